@@ -74,7 +74,7 @@ func checkC01(w *Workload) *Outcome {
 	})
 }
 
-var c01Fixtures = []string{"flat24", "nest", "tiny", "rep3", "stats2", "rep3b"}
+var c01Fixtures = []string{"flat24", "nest", "tiny", "rep3", "stats2", "rep3b", "reqopt"}
 
 func TestC01(t *testing.T) {
 	cfg := wlCfg{fixtures: c01Fixtures, maxRecs: envInt("VERIF_MAXRECS", 150), gen: vt.DefaultGen}
